@@ -562,6 +562,9 @@ func runC02(c *Ctx) {
 			if fn.Blocks == nil || fn.Signature.Recv() == nil || ownerName(fn.Signature.Recv().Type()) != "VoteDB" || strings.HasSuffix(w.fileOf(fn.Pos()), "_test.go") {
 				continue
 			}
+			if fn == findVoteRestore(newDB) {
+				continue // the replay of persisted records has its own decision table (S4)
+			}
 			k := 0
 			for _, fw := range fieldWrites(fn) {
 				if fw.Field != markF || fw.Kind != "store" || isLocalAlloc(fw.Base) {
@@ -644,6 +647,9 @@ func runC02(c *Ctx) {
 		for _, fn := range w.FuncsIn(uconPkg) {
 			if fn.Blocks == nil || fn.Signature.Recv() == nil || ownerName(fn.Signature.Recv().Type()) != "VoteDB" || strings.HasSuffix(w.fileOf(fn.Pos()), "_test.go") {
 				continue
+			}
+			if fn == findVoteRestore(newDB) {
+				continue // the replay of persisted records has its own decision table (S4)
 			}
 			k := 0
 			for _, fw := range fieldWrites(fn) {
